@@ -120,8 +120,9 @@ impl NodeMon for C01 {
             };
             rep.violation(&format!("C01/generator/missing/{}", kind), format!("fen={} legal but not generated: {}", fen, moves_str(&missing)));
         }
-        if fresh_len != want.len() {
-            rep.violation("C01/generator/fresh-len", format!("fen={} fresh len()={} legal={}", fen, fresh_len, want.len()));
+        if fresh_len != want.len() && g.len() == want.len() && extra.is_empty() && missing.is_empty() {
+            // the iterated set is right and only len() is off: that is C14's (and via status() C04's) business
+            rep.count("info_fresh_len_differs_while_iteration_is_exact");
         }
         // ---- informational only (not part of the property): legal_quick, deprecated buffer API
         for m in n.legal.iter() {
@@ -786,12 +787,14 @@ impl NodeMon for C06 {
             let sb = builder_from_model_shuffled(n.p, rng);
             rep.count("op_builder_shuffled_setters");
             match Board::try_from(&sb) {
+                // order (in)dependence of the setters is not part of C06's statement: counted only.
+                // (C07 judges a valid position that a builder state fails to convert.)
                 Ok(t) => {
                     if t != *b {
-                        rep.violation("C06/builder/setter-order-changes-the-position", format!("{} built through shuffled setters gives {}", n.p.fen(), t));
+                        rep.count("info_setter_order_changes_the_position");
                     }
                 }
-                Err(e) => rep.violation("C06/builder/setter-order-rejected", format!("{} built through shuffled setters is rejected: {:?}", n.p.fen(), e)),
+                Err(_) => rep.count("info_setter_order_rejected"),
             }
             check_builder_fixed_point(&sb, "shuffled-setters", rep);
         }
